@@ -1630,6 +1630,8 @@ class Interp:
             return self.isinstance_(args[0], args[1], n)
         if name == "issubclass":
             a, b = args
+            if isinstance(a, Obj) and "__subclass_of__" in a.fields and isinstance(b, ClassRef):
+                return b.name in a.fields["__subclass_of__"]
             return isinstance(a, ClassRef) and isinstance(b, ClassRef) and b.name in self.pkg.mro(a.name)
         if name == "type":
             return self.type_of(args[0], n)
